@@ -25,7 +25,7 @@
 From Coq Require Import List ZArith QArith Bool Arith Lia Reals Lra.
 From Flocq Require Import Core BinarySingleNaN.
 From LMBase Require Import Res ListX IEEE.
-From LMDisc Require Import DiscModel DiscImplCheck DiscProofs DiscKernels DiscIEEE DiscImplProofs DiscF32Mono DiscF32Main DiscF32Sum DiscF32Cond DiscF32Zero DiscF32End DiscF32Sign.
+From LMDisc Require Import DiscModel DiscImplCheck DiscProofs DiscKernels DiscU8Kernel GenDiscU8 DiscU8Proofs DiscIEEE DiscImplProofs DiscF32Mono DiscF32Main DiscF32Sum DiscF32Cond DiscF32Zero DiscF32End DiscF32Sign.
 Import ListNotations.
 
 (* (1) exact arithmetic: byte score of a window >= byte image of its real score *)
@@ -125,6 +125,90 @@ Theorem C08_dispatch_arms_agree :
     score_rows_dispatch a dm pads s lo hi = Ok sc ->
     score_rows_generic sat_add 0%Z 32 dm s lo hi = Ok sc.
 Proof. exact dispatch_arms_agree. Qed.
+
+(* (2s) the same for the kernels, the wrappers and the dispatcher table AS TRANSLATED FROM THE SOURCE
+   (GenDiscU8.v, regenerated by translate/disc_u8.py on every check from avx2.rs, neon.rs, dispatch.rs
+   and pli/mod.rs: statements of the motif loop as register operations, wrapper guards in source
+   order, `match self.backend` arms).  The generated AVX2 kernel + wrapper IS score_rows_avx2 and the
+   generated x86 table IS score_rows_dispatch, so (2) above is about the source as translated: *)
+Theorem C08_avx2_source_is_model :
+  forall (dm : list (list Z)) (pads : nat -> list Z) (s : sseq) (lo hi : nat),
+    Forall (fun x => length x = 32%nat) (ss_rows s) ->
+    vk_score_rows gen_avx2_u8 32 dm pads s lo hi = score_rows_avx2 dm pads s lo hi.
+Proof. exact avx2_gen_is_model. Qed.
+
+Theorem C08_dispatch_source_is_model :
+  forall (a : arm) (dm : list (list Z)) (pads : nat -> list Z) (s : sseq) (lo hi : nat),
+    Forall (fun x => length x = 32%nat) (ss_rows s) ->
+    run_u8_kernel gen_avx2_u8 gen_neon_u8 (gen_dispatch_u8_x86 (arm4_of a)) 32 dm pads s lo hi
+    = score_rows_dispatch a dm pads s lo hi.
+Proof. exact dispatch_gen_is_model. Qed.
+
+Theorem C08_avx2_source_eq_generic :
+  forall (K : nat) (dm : list (list Z)) (pads : nat -> list Z) (s : sseq) (lo hi : nat) (sc : sscores Z),
+    (K <= 16)%nat -> Forall (fun row => length row = K) dm -> (forall i, 16 <= K + length (pads i))%nat ->
+    sseq_ok K s ->
+    vk_score_rows gen_avx2_u8 32 dm pads s lo hi = Ok sc ->
+    score_rows_generic sat_add 0%Z 32 dm s lo hi = Ok sc.
+Proof. exact avx2_gen_eq_generic. Qed.
+
+Theorem C08_dispatch_source_arms_agree :
+  forall (K : nat) (dm : list (list Z)) (pads : nat -> list Z) (s : sseq) (lo hi : nat) (a : arm) (sc : sscores Z),
+    (K <= 16)%nat -> Forall (fun row => length row = K) dm -> (forall i, 16 <= K + length (pads i))%nat ->
+    sseq_ok K s ->
+    run_u8_kernel gen_avx2_u8 gen_neon_u8 (gen_dispatch_u8_x86 (arm4_of a)) 32 dm pads s lo hi = Ok sc ->
+    score_rows_generic sat_add 0%Z 32 dm s lo hi = Ok sc.
+Proof. exact dispatch_gen_arms_agree. Qed.
+
+(* which kernel the Score<u8> impl of each static pipeline runs (pli/mod.rs): Generic and Sse2 the
+   trait default, Avx2 the shuffle kernel, Neon the NEON kernel *)
+Theorem C08_source_pipeline_table :
+  forall a : arm4,
+    gen_pipeline_u8 a = match a with D4Avx2 => UKAvx2Shuffle | D4Neon => UKNeon | _ => UKGeneric end.
+Proof. exact gen_pipeline_u8_expected. Qed.
+
+(* (2n) NEON (neon.rs is not compiled on an x86 host: translator + proof only).  The 16-lane kernel
+   (vqtbl1q_u8 lookup, vqaddq_u8 saturating add, any multiple of 16 columns) behind its wrapper returns,
+   on a sequence configured for the motif, the same matrix as the generic kernel for EVERY row range,
+   or both panic (the wrapper's row-range guard of /repo 9cd9b52 / the generic kernel's slice index) *)
+Theorem C08_neon_eq_generic :
+  forall (K q : nat) (dm : list (list Z)) (pads : nat -> list Z) (s : sseq) (lo hi : nat),
+    (K <= 16)%nat -> Forall (fun row => length row = K) dm -> (forall i, 16 <= K + length (pads i))%nat ->
+    sseq_okC (q * 16) K s ->
+    (1 <= q)%nat -> (1 <= length dm)%nat -> (length dm - 1 <= ss_wrap s)%nat ->
+    (exists sc, vk_score_rows gen_neon_u8 (q * 16) dm pads s lo hi = Ok sc /\
+                score_rows_generic sat_add 0%Z (q * 16) dm s lo hi = Ok sc) \/
+    (is_panic (vk_score_rows gen_neon_u8 (q * 16) dm pads s lo hi) /\
+     is_panic (score_rows_generic sat_add 0%Z (q * 16) dm s lo hi)).
+Proof. exact neon_generic_agree. Qed.
+
+(* without any hypothesis on the wrap rows: whatever the NEON wrapper returns, the generic kernel returns *)
+Theorem C08_neon_result_eq_generic :
+  forall (K q : nat) (dm : list (list Z)) (pads : nat -> list Z) (s : sseq) (lo hi : nat) (sc : sscores Z),
+    (K <= 16)%nat -> Forall (fun row => length row = K) dm -> (forall i, 16 <= K + length (pads i))%nat ->
+    sseq_okC (q * 16) K s ->
+    vk_score_rows gen_neon_u8 (q * 16) dm pads s lo hi = Ok sc ->
+    score_rows_generic sat_add 0%Z (q * 16) dm s lo hi = Ok sc.
+Proof. exact neon_eq_generic. Qed.
+
+(* every arm of the dispatcher as compiled on Arm hosts (Generic, Neon) agrees with the generic kernel *)
+Theorem C08_dispatch_arm_hosts_agree :
+  forall (K q : nat) (dm : list (list Z)) (pads : nat -> list Z) (s : sseq) (lo hi : nat) (a : arm4) (sc : sscores Z),
+    (K <= 16)%nat -> Forall (fun row => length row = K) dm -> (forall i, 16 <= K + length (pads i))%nat ->
+    sseq_okC (q * 16) K s ->
+    run_u8_kernel gen_avx2_u8 gen_neon_u8 (gen_dispatch_u8_arm a) (q * 16) dm pads s lo hi = Ok sc ->
+    score_rows_generic sat_add 0%Z (q * 16) dm s lo hi = Ok sc.
+Proof. exact dispatch_arm_hosts_agree. Qed.
+
+(* the NEON kernel as it was before /repo commit 8ba350b (`s = vaddq_u8(s, y)`, wrapping) violates C08:
+   on the consensus word of a matrix whose rounded-up cells sum to 257 its byte score is 1, below the
+   image 255 of the real score (which the generic kernel reaches) *)
+Theorem C08_neon_old_wraps_refuted :
+  Forall (fun row => Forall xq_finite (nonwild 5%nat row)) wit_u8_matrix /\
+  exists bk bg sr : Z,
+    (* byte score from the old NEON kernel, from the generic kernel, image of the real score *)
+    u8_outcome neon_u8_old = Ok (bk, bg, sr) /\ (bk < sr)%Z /\ (sr <= bg)%Z.
+Proof. exact neon_old_wraps_refuted. Qed.
 
 (* adds_epu8 is the saturating sum: on a sequence striped and configured for the motif
    every arm returns the same matrix, and its entry for position i is
